@@ -74,12 +74,27 @@ func isEOFValue(tb *TB, v ssa.Value) bool {
 // mayBeEOF: io.EOF itself, or a merge one of whose inputs may be, or the
 // result of a closure one of whose returns may be.
 func (p *Program) mayBeEOF(tb *TB, v ssa.Value, depth int) bool {
+	return p.mayBeEOFAt(tb, v, nil, depth)
+}
+
+// mayBeEOFAt: the same with the facts in force where the value is used; the error of a source
+// read handed on as it came may be io.EOF unless those facts say `err != io.EOF`.
+func (p *Program) mayBeEOFAt(tb *TB, v ssa.Value, facts []Atom, depth int) bool {
 	if depth > 4 {
 		return false
 	}
 	if ph, ok := v.(*ssa.Phi); ok {
-		for _, e := range ph.Edges {
-			if p.mayBeEOF(tb, e, depth+1) {
+		for i, e := range ph.Edges {
+			pr := ph.Block().Preds[i]
+			ef := tb.FactsAt(pr)
+			for k, sc := range pr.Succs {
+				if sc == ph.Block() {
+					if _, isIf := pr.Instrs[len(pr.Instrs)-1].(*ssa.If); isIf {
+						ef = tb.FactsOnEdge(pr, k)
+					}
+				}
+			}
+			if p.mayBeEOFAt(tb, e, append(append([]Atom{}, facts...), ef...), depth+1) {
 				return true
 			}
 		}
@@ -91,7 +106,7 @@ func (p *Program) mayBeEOF(tb *TB, v ssa.Value, depth int) bool {
 			ftb := p.TB(f)
 			for _, ret := range returnsOf(f) {
 				for _, rv := range resultsOf(ret) {
-					if p.mayBeEOF(ftb, rv, depth+1) {
+					if p.mayBeEOFAt(ftb, rv, ftb.FactsAt(ret.Block()), depth+1) {
 						return true
 					}
 				}
@@ -99,5 +114,30 @@ func (p *Program) mayBeEOF(tb *TB, v ssa.Value, depth int) bool {
 			return false
 		}
 	}
+	if isSourceReadError(v) {
+		ts := tb.Term(v).String()
+		_, excluded := findFact(facts, func(a Atom) bool {
+			return a.Kind == "cmp" && a.Op == "!=" && ((a.X.String() == ts && short(a.Y.String()) == "io.EOF") || (a.Y.String() == ts && short(a.X.String()) == "io.EOF"))
+		})
+		return !excluded
+	}
 	return strings.TrimSpace(short(tb.Term(v).String())) == "io.EOF"
+}
+
+// isSourceReadError: the error result of a read from a bufio.Reader or io.Reader.
+func isSourceReadError(v ssa.Value) bool {
+	ex, ok := v.(*ssa.Extract)
+	if !ok || !isErrorType(ex.Type()) {
+		return false
+	}
+	c, ok := ex.Tuple.(*ssa.Call)
+	if !ok {
+		return false
+	}
+	switch calleeName(&c.Call) {
+	case "(*bufio.Reader).ReadBytes", "(*bufio.Reader).ReadString", "(*bufio.Reader).ReadSlice", "(*bufio.Reader).ReadLine",
+		"(*bufio.Reader).Read", "(*bufio.Reader).ReadByte", "io.ReadFull", "io.ReadAtLeast", "invoke (io.Reader).Read":
+		return true
+	}
+	return false
 }
